@@ -471,6 +471,19 @@ def run_arith(case):
     nums, ops = case["nums"], case["ops"]
     val = arith_value(nums, ops)
     out = []
+    if nums == [1, 1] and ops == ["+"]:
+        # literals with an explicit exponent sign (the printer emits them for magnitudes >= 1e4)
+        for s, ref in (("x <= 1E+2", [O.mk({"x": 1}, 100)]), ("2e+0 x <= 1", [O.mk({"x": 2}, 1)]), ("1.5e+04 x - y <= 2e+04", [O.mk({"x": 15000, "y": -1}, 20000)]),
+                       ("x <= 5e-1", [O.mk({"x": 1}, 0.5)]), ("3.0E+00|x| <= 6", [O.mk({"x": 3}, 6), O.mk({"x": -3}, 6)])):
+            oc, r = parse(s)
+            viol = None
+            if oc != "accepted":
+                viol = {"sub": {"string": s}, "what": "a number with an explicit exponent sign is not accepted (%s)" % oc}
+            else:
+                parsed = [O.rt(t) for t in r]
+                if sorted(parsed) != sorted(ref) and not _same(parsed, ref):
+                    viol = {"sub": {"string": s}, "what": "literal with exponent parsed as %s" % [str(t) for t in r]}
+            out.append(("arith:" + oc, True, None, viol, {"equiv-checked": 1}))
     for gap in ("", " "):
         text = "(" + gap.join(str(x) for pair in zip(nums, ops + [""]) for x in pair if x != "") + ")"
         templates = [
